@@ -24,3 +24,6 @@ import MidoProofs.SrcTie.Reader
 #print axioms Mido.src_track_loop
 #print axioms Mido.src_read_chunk_header
 #print axioms Mido.src_read_track
+#print axioms Mido.src_read_file_header
+#print axioms Mido.src_load_loop
+#print axioms Mido.src_load
